@@ -32,7 +32,7 @@ ASSUMPTIONS = [
     "stratum B's monitor wraps Fail._decide_match, Stopper._stop_me and ErrorHandler._handle_if; if a refactoring removes them the stratum reports itself as not installed instead of alarming",
 ]
 REAL = REAL_ALL
-STUB = STUB_ALL + ["pass-through wrappers recording that Fail._decide_match / Stopper._stop_me / ErrorHandler._handle_if executed (secondary monitor)"]
+STUB = STUB_ALL + ["stdout during stratum-P runs: every write raises ENOSPC (I/O fault at the policy's print step)", "pass-through wrappers recording that Fail._decide_match / Stopper._stop_me / ErrorHandler._handle_if executed (secondary monitor)"]
 
 FAMILIES = ["plain", "no", "fas", "onmatch", "after_stop", "after_skip", "when_false", "error", "error_vm_fail", "error_vm_nofail", "onmatch_rejected", "fail_then_error", "error_skip_same_line", "fas_onmatch", "plain_nocontrib", "fas_nocontrib", "abort_outside", "error_lhs_fail"]
 PRE = 'push("bl", line_number()) push("b", valid()) push("bf", failed())'
@@ -91,7 +91,24 @@ def member_text(m, j, file="", dup=False):
     return f"~{head}~ ${file}[{m.get('scan', '*')}][ {PRE} {family_body(m['fam'], m['K'])} {POST} ]"
 
 
+def generate_print_fault(rng):
+    """Stratum P: an error is handled while stdout is broken (every write raises ENOSPC): the print step of the
+    policy fails.  Whatever becomes of the run, the verdict must be what the policy's 'fail' flag says."""
+    nrec = rng.randint(3, 7)
+    return {
+        "stratum": "P",
+        "seed": rng.getrandbits(32),
+        "nrec": nrec,
+        "K": rng.randint(0, nrec - 1),
+        "policy": rng.choice([["collect", "print", "fail"], ["print", "fail"], ["collect", "print"], ["print"], ["collect", "print", "fail", "stop"], ["print", "stop"]]),
+        "method": rng.choice(["standalone", "standalone"] + ops.METHODS),
+        "vm": rng.choice([None, None, "fail", "no-fail"]),
+    }
+
+
 def generate(rng, i, tier):
+    if i % 40 == 17:
+        return generate_print_fault(rng)
     if i % 4 == 3:
         rows = gen.gen_rows(rng)
         k = rng.randint(1, 3)
@@ -144,6 +161,12 @@ def generate(rng, i, tier):
 
 
 def reductions(sc):
+    if sc["stratum"] == "P":
+        if sc["method"] != "standalone":
+            yield with_(sc, method="standalone")
+        if sc.get("vm"):
+            yield with_(sc, vm=None)
+        return
     for cand in drop_each(sc["members"], 2 if sc.get("dup_ids") else 1):
         yield with_(sc, members=cand)
     if sc["stratum"] == "B":
@@ -223,6 +246,8 @@ def execute(sc):
     seams.reset(sc["seed"])
     if sc["stratum"] == "B":
         return _execute_b(sc, out)
+    if sc["stratum"] == "P":
+        return _execute_p(sc, out)
     lines = [l for l in range(sc["nrec"]) if l not in sc["blanks"]]
     members = sc["members"]
     k = len(members)
@@ -402,6 +427,87 @@ def execute(sc):
         out.probe("verdict event on the last line", "last" in pos)
         out.probe("group with both valid and failed members", k > 1 and len(set(wants)) == 2)
         out.log([list(e) for e in exp], [ops.path_state(g["cp"]) for g in got], mgr_valid, len(out.violations))
+    return out.done()
+
+
+def _execute_p(sc, out):
+    from csvpath.util.printer import TestPrinter
+    from ..sim import CsvPath
+
+    pol_fail = "fail" in sc["policy"]
+    if sc.get("vm") == "fail":
+        pol_fail = True
+    elif sc.get("vm") == "no-fail":
+        pol_fail = False
+    want = not pol_fail
+    head = "id:m0" + (f" validation-mode:{sc['vm']}" if sc.get("vm") else "")
+    text = f'~{head}~ $%s[*][ simfault("s") push("l", line_number()) ]'
+    meth = sc["method"]
+    where = f"{meth} policy {sc['policy']} validation-mode {sc.get('vm')}: error on line {sc['K']} while every write to stdout fails with ENOSPC"
+    with W.World(csvpath_policy=sc["policy"]) as w:
+        w.write_csv("src/f.csv", [["id", "c"]] + [[f"r{l}", "x"] for l in range(1, sc["nrec"])])
+        extfuncs.arm(plan=[("m0", sc["K"], "s")])
+        ops._Sink.failed_writes = 0
+        raised = None
+        try:
+            if meth == "standalone":
+                with ops.quiet():
+                    cp = CsvPath()
+                ops._Sink.broken = True
+                try:
+                    with ops.quiet():
+                        cp.fast_forward(text % "src/f.csv")
+                except Exception as e:  # noqa: BLE001
+                    if not ops.in_repo(e) and not isinstance(e, OSError):
+                        raise
+                    raised = e
+                ops._Sink.broken = False
+                out.runs += 1
+                if cp.is_valid != want:
+                    out.v("final_verdict", f"{where}: is_valid={cp.is_valid}, expected {want} (the run {'raised ' + type(raised).__name__ if raised else 'returned'})", family="print_fault", spurious=want)
+            else:
+                cs = ops.new_csvpaths()
+                with ops.quiet():
+                    cs.file_manager.add_named_file(name="f", path="src/f.csv")
+                    cs.paths_manager.add_named_paths(name="g", paths=[text % "", "~id:m1~ $[*][ yes() ]"])
+                ops._Sink.broken = True
+                try:
+                    ops.run_group(cs, meth, "g")
+                except Exception as e:  # noqa: BLE001
+                    if not ops.in_repo(e) and not isinstance(e, OSError):
+                        raise
+                    raised = e
+                ops._Sink.broken = False
+                out.runs += 1
+                rs = ops.results_of(cs, "g")
+                if not rs:
+                    out.v("member_missing", f"{where}: no results at all", family="print_fault")
+                else:
+                    r0 = rs[0]
+                    if r0.csvpath.is_valid != want or r0.is_valid != want:
+                        out.v("final_verdict", f"{where}: member m0 is_valid={r0.csvpath.is_valid} Result.is_valid={r0.is_valid}, expected {want}", family="print_fault", spurious=want)
+                    # (Result.is_valid, not CsvPath.is_valid: in a breadth-first run aborted on its first line the later
+                    # members never started, and a result that never started does not count as valid)
+                    conj = all(x.is_valid for x in rs)
+                    if cs.results_manager.is_valid("g") != conj:
+                        out.v("manager_is_valid", f"{where}: results_manager.is_valid={cs.results_manager.is_valid('g')}, conjunction of the members' verdicts is {conj}")
+                    run = D.read_run(r0.run_dir)
+                    mm = ((run["members"].get("m0") or {}).get("manifest")) or None
+                    if mm is not None and mm.get("valid") is not None and mm.get("valid") != want:
+                        out.v("member_manifest_valid", f"{where}: member m0 manifest valid={mm.get('valid')}, expected {want}", family="print_fault")
+                    man = run["manifest"]
+                    if man is not None and man.get("all_valid") is not None and man.get("all_valid") != conj:
+                        out.v("all_valid", f"{where}: run manifest all_valid={man.get('all_valid')}, conjunction of members is {conj}")
+        finally:
+            ops._Sink.broken = False
+        hit = ops._Sink.failed_writes > 0
+        if hit:
+            out.fault("stdout_enospc", ops._Sink.failed_writes)
+            out.fault("error_event")
+        out.probe("error handled while stdout is broken", hit)
+        out.sig = ["P", meth, sc["policy"], sc.get("vm"), bool(raised)]
+        out.nontrivial = hit
+        out.log(meth, sc["policy"], sc.get("vm"), type(raised).__name__ if raised else None, len(out.violations))
     return out.done()
 
 
